@@ -43,12 +43,13 @@ pub trait B: Value<Transformed: PartialEq> + Clone + 'static {
         let s = self.show();
         e.iter().find(|x| x.show() != s).unwrap_or(&e[0]).clone()
     }
-    /// route r7 (enum types only): construct in the script / match in the script
+    /// routes r7 and r9 (enum types only): construct in the script / match in
+    /// the script; lists of the enum built in the script
     fn r7_run(_cx: &mut Cx) {}
     fn r7_script() -> Option<String> {
         None
     }
-    fn r7_describe(_t: Tier, _pos: u64, _idx: usize) -> Json {
+    fn r7_describe(_t: Tier, _route: u64, _pos: u64, _idx: usize) -> Json {
         Json::Null
     }
 }
@@ -539,12 +540,16 @@ impl<P: B> B for Option<P> {
         }
     }
     fn r7_run(cx: &mut Cx) {
-        routes::r7_option::<P>(cx)
+        routes::r7_option::<P>(cx);
+        routes::r9_list::<Self>(cx);
     }
     fn r7_script() -> Option<String> {
         Some(routes::script_r7_option(&P::roto()))
     }
-    fn r7_describe(t: Tier, pos: u64, idx: usize) -> Json {
+    fn r7_describe(t: Tier, route: u64, pos: u64, idx: usize) -> Json {
+        if route == routes::R9 {
+            return routes::r9_describe::<Self>(t, pos, idx);
+        }
         routes::r7_option_describe::<P>(t, pos, idx)
     }
 }
@@ -583,12 +588,16 @@ impl<A: B, E: B> B for Result<A, E> {
         }
     }
     fn r7_run(cx: &mut Cx) {
-        routes::r7_two::<A, E, Self>(cx, &RES, Ok, Err, |r| r.as_ref())
+        routes::r7_two::<A, E, Self>(cx, &RES, Ok, Err, |r| r.as_ref());
+        routes::r9_list::<Self>(cx);
     }
     fn r7_script() -> Option<String> {
         Some(routes::script_r7_two(&RES, &A::roto(), &E::roto()))
     }
-    fn r7_describe(t: Tier, pos: u64, idx: usize) -> Json {
+    fn r7_describe(t: Tier, route: u64, pos: u64, idx: usize) -> Json {
+        if route == routes::R9 {
+            return routes::r9_describe::<Self>(t, pos, idx);
+        }
         routes::r7_two_describe::<A, E, Self>(&RES, t, pos, idx)
     }
 }
@@ -633,12 +642,16 @@ impl<A: B, E: B> B for Verdict<A, E> {
         routes::r7_two::<A, E, Self>(cx, &VER, Verdict::Accept, Verdict::Reject, |r| match r {
             Verdict::Accept(a) => Ok(a),
             Verdict::Reject(e) => Err(e),
-        })
+        });
+        routes::r9_list::<Self>(cx);
     }
     fn r7_script() -> Option<String> {
         Some(routes::script_r7_two(&VER, &A::roto(), &E::roto()))
     }
-    fn r7_describe(t: Tier, pos: u64, idx: usize) -> Json {
+    fn r7_describe(t: Tier, route: u64, pos: u64, idx: usize) -> Json {
+        if route == routes::R9 {
+            return routes::r9_describe::<Self>(t, pos, idx);
+        }
         routes::r7_two_describe::<A, E, Self>(&VER, t, pos, idx)
     }
 }
